@@ -488,6 +488,7 @@ DOCS = ['{"a":{"b":2,"c":[1,2,3],"a":"x"},"b":5,"c":[3,1,2],"k1":"s","x-y":null}
 
 KNOWN_INPUTS = {
     "sub-number": ["3-1", "3 -1"],
+    "colon-close": ["[1: ]"],
 }
 # repaired in /repo (KNOWN_FINDINGS `fixed:` lines); replayed as ordinary cases on every run
 FIXED_CASES = [
@@ -526,6 +527,9 @@ def check_known(chk):
     o = [eval_obs(r) for r in rs]
     if o[2][0] == "ok" and (o[0] != o[2] or o[1] != o[2]):
         chk.known_finding("sub-number", "`3-1` -> %s, `3 -1` -> %s, `3 - 1` -> ok" % (o[0][0], o[1][0]))
+    r = vlib.yqh_batch(parse_reqs(["[1: ]"]))[0]
+    if not impl_class(r).startswith("ERR"):
+        chk.known_finding("colon-close", "`[1: ]` is accepted as %s" % impl_class(r))
     # the repaired findings must stay repaired
     for kind, a, b in FIXED_CASES:
         if kind == "eval-eq":
@@ -702,6 +706,36 @@ def run(chk):
     for s in ["(", ")", "[", "]", "{", "}", "(]", "[)", "{)", "(}", "[}", "{]", "((1)", "(1))", "[[1]", "[1]]", "1 +", "+ 1", "1 + + 2", "1 |", "| 1",
               ".a ==", "select(", "select(.a", "select(.a))", "has(\"a\"", ".[", ".[0", ".a[0", ".a]", "{\"a\": 1", "\"a\": 1}", "1 , , 2", "and", ".a and", "or .a"]:
         rej.append((s, None, "fixed"))
+    # missing-operand matrix: every infix operator with its left / right operand missing, directly next to
+    # every kind of bracket and separator (the post-processing must not fabricate the operand)
+    A_, B_, K_ = leaf_lex(("path", "a", False)), leaf_lex(("num", "2")), leaf_lex(("str", "k"))
+    colon_close = []
+    for sym in BINOPS:
+        o = lx_op(sym)
+        fn1 = Lex("select", 'CO "selectOpType" [] false true', "word")
+        fn2 = Lex("with", 'CO "withOpType" [] false true', "word")
+        shapes = []
+        for oc in ("()", "[]", "{}"):
+            shapes.append([lx_open(oc[0]), o, B_, lx_close(oc[1])])                       # ( OP b )
+            shapes.append([lx_open(oc[0]), A_, o, lx_close(oc[1])])                       # ( a OP )
+            shapes.append([lx_open(oc[0]), A_, lx_op(","), o, B_, lx_close(oc[1])])       # ( a , OP b )
+            shapes.append([lx_open(oc[0]), A_, o, lx_op(","), B_, lx_close(oc[1])])       # ( a OP , b )
+        shapes += [[o, B_], [A_, o], [A_, lx_op("|"), o, B_], [A_, o, lx_op("|"), B_],
+                   [fn1, lx_open("("), o, B_, lx_close(")")], [fn1, lx_open("("), A_, o, lx_close(")")],
+                   [fn2, lx_open("("), A_, lx_op(";"), o, B_, lx_close(")")], [fn2, lx_open("("), A_, o, lx_op(";"), B_, lx_close(")")],
+                   [lx_open("{"), K_, lx_op(":"), lx_open("["), o, B_, lx_close("]"), lx_close("}")],
+                   [lx_open("{"), K_, lx_op(":"), o, B_, lx_close("}")], [lx_open("{"), K_, lx_op(":"), A_, o, lx_close("}")],
+                   [A_, lx_op("|"), lx_open("["), o, B_, lx_close("]"), lx_op("|"), Lex(".[", "CT", "open"), B_, lx_close("]")]]
+        if sym != ":":   # `.[:b]`, `x[a:]` are the slice syntax with an implied bound, not judged here
+            shapes += [[Lex(".[", "CT", "open"), o, B_, lx_close("]")], [Lex(".[", "CT", "open"), A_, o, lx_close("]")],
+                       [A_, lx_open("["), o, B_, lx_close("]")], [A_, lx_open("["), B_, o, lx_close("]")]]
+        for ls2 in shapes:
+            if wellformed(ls2):
+                broken.append("missing-operand shape is accepted by the check's own recogniser: " + layout(ls2, "space", rng))
+                continue
+            is_cc = any(ls2[i].text == ":" and ls2[i].cls == "op" and ls2[i + 1].text == "]" for i in range(len(ls2) - 1))
+            for st in (["space", "newline", "comment"] if thorough else ["space", "comment"]):
+                (colon_close if is_cc else rej).append((layout(ls2, st, rng), ls2, "missing-operand"))
     rresp = vlib.yqh_parallel(parse_reqs([r[0] for r in rej]))
     rimpl = [impl_class(r) for r in rresp]
     nrej_bad = 0
@@ -719,6 +753,22 @@ def run(chk):
                 seen[key] = -1
                 mcases.append((key, im.encode()))
                 morig.append(("rej", s))
+    # `a : ]` in a plain collect: the slice default `length` is fabricated as the right operand (finding colon-close)
+    cresp = vlib.yqh_parallel(parse_reqs([r[0] for r in colon_close])) if colon_close else []
+    for (s_, ls2, kind), r in zip(colon_close, cresp):
+        im = impl_class(r)
+        chk.count(("reject", s_), nontrivial=True)
+        dist["reject/colon-close"] = dist.get("reject/colon-close", 0) + 1
+        if not im.startswith("ERR:"):
+            if chk.is_known("colon-close"):
+                chk.known_finding("colon-close", s_)
+            else:
+                chk.violation({"kind": "reject", "expr": s_, "mutation": "colon-close", "impl": im}, True, "a `:` without right operand before `]` is accepted")
+        key = ctoks(ls2)
+        if key not in seen and im != "ERR:lexer":
+            seen[key] = -1
+            mcases.append((key, im.encode()))
+            morig.append(("rej", s_))
     # permuted (postfix-style / close-before-open) inputs: must be rejected (repaired findings); the model must agree on the error class
     perm = []
     for t in base_terms[:150 if not thorough else 1500]:
